@@ -64,6 +64,8 @@ def gen_walk(ch, dom, world, st, max_len):
             ground.append([a["name"]] + list(call))
     plan = []
     for _ in range(ch.int(1, max_len)):
+        if pddl.beyond_float(st):
+            break
         apps = []
         for g in ch.sample(ground, min(len(ground), 16)):
             try:
